@@ -69,8 +69,7 @@ type pendingHavoc struct {
 
 type deferred struct {
 	call *ast.CallExpr
-	// pre-evaluated args
-	env map[types.Object]*Value
+	cond *Term // nil: unconditional; else registered only on paths where cond holds
 }
 
 type ctlFrame struct {
@@ -134,6 +133,8 @@ type Exec struct {
 	skolem        bool
 	initKeys      map[string]bool
 	havocId       int
+	guardCount    int
+	touched       []touchedPtr
 	pendingHavoc  []string
 	guardHook     func(st *State, structT types.Type, field string, ptr *Term, at ast.Node, write bool)
 }
@@ -233,7 +234,11 @@ func (x *Exec) safety(st *State, what string, e ast.Node, goal *Term) {
 	if e != nil {
 		pos = e.Pos()
 	}
-	x.oblige(st, "safety", fmt.Sprintf("safety.%s(%s)", what, txt), goal, pos, nil)
+	var sp []string
+	if c := x.eng.cf.Contracts[x.qual]; c != nil && c.SafetyProps != nil {
+		sp = c.SafetyProps
+	}
+	x.oblige(st, "safety", fmt.Sprintf("safety.%s(%s)", what, txt), goal, pos, sp)
 	// after the check, execution continues only where it held
 	x.assume(st, goal)
 }
@@ -356,7 +361,22 @@ func (x *Exec) allocRef(st *State) *Term {
 	return r
 }
 
+func (x *Exec) isImmutableKey(k string) bool {
+	for _, im := range x.eng.cf.Immutable {
+		if k == im || strings.HasPrefix(k, im+".") {
+			return true
+		}
+	}
+	return false
+}
+
 func (x *Exec) havocHeap(st *State, why string, keep func(key string) bool) {
+	if keep == nil {
+		keep = x.isImmutableKey
+	} else {
+		k0 := keep
+		keep = func(k string) bool { return k0(k) || x.isImmutableKey(k) }
+	}
 	for k, a := range st.heap {
 		if keep != nil && keep(k) {
 			continue
@@ -459,13 +479,26 @@ func (x *Exec) merge2(a, c *State) *State {
 	if len(c.pending) > len(a.pending) {
 		n.pending = c.pending
 	}
-	n.defers = a.defers
-	if len(c.defers) != len(a.defers) {
-		// differing defer stacks cannot be merged; keep the longer (conservative: flagged)
-		x.note("merge-with-different-defers")
-		if len(c.defers) > len(a.defers) {
-			n.defers = c.defers
+	// defer stacks: common prefix, then each side's extra entries guarded by
+	// that side's path condition
+	k2 := 0
+	for k2 < len(a.defers) && k2 < len(c.defers) && a.defers[k2] == c.defers[k2] {
+		k2++
+	}
+	n.defers = append([]*deferred{}, a.defers[:k2]...)
+	for _, d := range a.defers[k2:] {
+		cond := ca
+		if d.cond != nil {
+			cond = x.b.And(ca, d.cond)
 		}
+		n.defers = append(n.defers, &deferred{call: d.call, cond: cond})
+	}
+	for _, d := range c.defers[k2:] {
+		cond := cc
+		if d.cond != nil {
+			cond = x.b.And(cc, d.cond)
+		}
+		n.defers = append(n.defers, &deferred{call: d.call, cond: cond})
 	}
 	return n
 }
@@ -612,8 +645,6 @@ func (x *Exec) execStmt(st *State, s ast.Stmt) *State {
 		}
 		return x.execStmt(st, s.Stmt)
 	case *ast.DeferStmt:
-		fr := x.frame()
-		fr.defers = append(fr.defers, &deferred{call: s.Call})
 		st.defers = append(st.defers, &deferred{call: s.Call})
 		return st
 	case *ast.GoStmt:
@@ -1164,6 +1195,7 @@ func (x *Exec) loopSpec(s ast.Stmt) (*LoopSpec, int) {
 
 // frameInfo: what a statement may write.
 type frameInfo struct {
+	elemOnly map[types.Object]bool // slice variables only written through s[i] = v
 	objs     map[types.Object]bool
 	heapAll  bool
 	heapKeys map[string]bool // key prefixes ("Struct.field", "map<..>", "cell<..>")
@@ -1173,13 +1205,30 @@ type frameInfo struct {
 // assignedIn collects local objects assigned in a node and the heap
 // locations it may write (syntactically; calls through their contracts).
 func (x *Exec) assignedIn(n ast.Node) *frameInfo {
-	fi := &frameInfo{objs: map[types.Object]bool{}, heapKeys: map[string]bool{}}
+	fi := &frameInfo{objs: map[types.Object]bool{}, heapKeys: map[string]bool{}, elemOnly: map[types.Object]bool{}}
+	whole := map[types.Object]bool{}
 	var markL func(e ast.Expr)
+	markElem := func(e ast.Expr) bool {
+		if id, ok := unparen(e).(*ast.Ident); ok {
+			if o := x.eng.info.Uses[id]; o != nil {
+				if _, isSl := o.Type().Underlying().(*types.Slice); isSl {
+					fi.objs[o] = true
+					if !whole[o] {
+						fi.elemOnly[o] = true
+					}
+					return true
+				}
+			}
+		}
+		return false
+	}
 	markL = func(e ast.Expr) {
 		switch e := e.(type) {
 		case *ast.Ident:
 			if o := x.eng.info.Uses[e]; o != nil {
 				fi.objs[o] = true
+				whole[o] = true
+				delete(fi.elemOnly, o)
 				if v, ok := o.(*types.Var); ok && v.Parent() == x.eng.pkg.Types.Scope() {
 					fi.heapKeys["global."+v.Name()] = true
 				}
@@ -1190,6 +1239,9 @@ func (x *Exec) assignedIn(n ast.Node) *frameInfo {
 		case *ast.IndexExpr:
 			if u, isMap := x.eng.info.TypeOf(e.X).Underlying().(*types.Map); isMap {
 				fi.heapKeys[mapKeyName(u)] = true
+				return
+			}
+			if markElem(e.X) {
 				return
 			}
 			markL(e.X)
@@ -1282,6 +1334,23 @@ func (x *Exec) callFrame(c *ast.CallExpr, fi *frameInfo) {
 		}
 	}
 	if callee != nil {
+		if ct := x.eng.cf.Contracts[funcQual(callee)]; ct != nil && len(ct.Writes) > 0 {
+			sig := callee.Type().(*types.Signature)
+			for i := 0; i < sig.Params().Len() && i < len(c.Args); i++ {
+				if contains(ct.Writes, sig.Params().At(i).Name()) {
+					if id, ok := unparen(c.Args[i]).(*ast.Ident); ok {
+						if o := x.eng.info.Uses[id]; o != nil {
+							if !fi.objs[o] {
+								fi.elemOnly[o] = true
+							}
+							fi.objs[o] = true
+						}
+					} else {
+						fi.heapAll = true
+					}
+				}
+			}
+		}
 		if ct := x.eng.cf.Contracts[funcQual(callee)]; ct != nil && !ct.Inline {
 			for _, m := range ct.Modifies {
 				if m == "*" || m == "heap" {
@@ -1343,6 +1412,9 @@ func (x *Exec) havocLoopTargets(st *State, spec *LoopSpec, body ast.Node, extra 
 		f2 := x.assignedIn(e)
 		for o := range f2.objs {
 			fi.objs[o] = true
+			if !f2.elemOnly[o] {
+				delete(fi.elemOnly, o)
+			}
 		}
 		fi.heapAll = fi.heapAll || f2.heapAll
 		for k := range f2.heapKeys {
@@ -1369,6 +1441,18 @@ func (x *Exec) havocLoopTargets(st *State, spec *LoopSpec, body ast.Node, extra 
 	}
 	sort.Slice(keys, func(i, j int) bool { return keys[i].Pos() < keys[j].Pos() })
 	for _, o := range keys {
+		if fi.elemOnly[o] {
+			// only elements are written: header (off/len/cap/nil) is preserved
+			cur := st.env[o]
+			nv := &Value{T: cur.T, L: copyLeaves(cur.L)}
+			for p, t := range nv.L {
+				if p == "arr" || strings.HasPrefix(p, "arr.") {
+					nv.L[p] = x.b.Fresh(o.Name()+"."+p, t.Sort)
+				}
+			}
+			st.env[o] = nv
+			continue
+		}
 		nv := x.freshValue(o.Type(), o.Name())
 		x.assumeWellFormed(st, nv)
 		st.env[o] = nv
@@ -1419,13 +1503,20 @@ func (x *Exec) runLoop(st *State, lp *loopParts) *State {
 	if spec != nil && spec.Unroll > 0 {
 		maxUnroll = spec.Unroll
 	}
+	if (spec == nil || len(spec.Invariants) == 0) && lp.cond == nil && maxUnroll == 0 {
+		// for { ... } without annotation: havoc abstraction
+		return x.runLoopHavoc(st, lp, nil, ord)
+	}
 	if spec == nil || len(spec.Invariants) == 0 {
 		var exits []*State
 		cur := st
 		limit := 4096
 		if maxUnroll > 0 {
 			limit = maxUnroll
+		} else if !x.eng.specFns[fr.qual] && x.noSafety == 0 {
+			limit = 80
 		}
+		snapshot := st.clone()
 		for iter := 0; cur != nil; iter++ {
 			var c *Term
 			if lp.cond != nil {
@@ -1459,6 +1550,10 @@ func (x *Exec) runLoop(st *State, lp *loopParts) *State {
 					x.oblige(cur, "unwind", fmt.Sprintf("loop%d.unwind", ord), x.b.False(), lp.node.Pos(), nil)
 					cur = nil
 					break
+				}
+				if !x.eng.specFns[fr.qual] && x.noSafety == 0 {
+					// long concrete loop in program code: abstract it instead
+					return x.runLoopHavoc(snapshot, lp, nil, ord)
 				}
 				x.fail("loop %d of %s: more than %d concrete iterations", ord, fr.qual, limit)
 				return nil
@@ -1514,7 +1609,7 @@ func (x *Exec) runLoopHavoc(st *State, lp *loopParts, spec *LoopSpec, ord int) *
 			nv := x.freshValue(o.Type(), o.Name())
 			x.assumeWellFormed(h, nv)
 			h.env[o] = nv
-			if strings.HasPrefix(o.Name(), "range!") {
+			if strings.HasPrefix(o.Name(), "ri") && len(o.Name()) <= 4 {
 				h.names[o.Name()] = nv
 			}
 		}
@@ -1606,7 +1701,7 @@ func (x *Exec) execRange(st *State, s *ast.RangeStmt, label string) *State {
 		vObj = keyObj(s.Value)
 	}
 	// ghost index variable
-	idxVar := types.NewVar(s.Pos(), x.eng.pkg.Types, fmt.Sprintf("range!%d", x.loopOrdinal(s)), types.Typ[types.Int])
+	idxVar := types.NewVar(s.Pos(), x.eng.pkg.Types, fmt.Sprintf("ri%d", x.loopOrdinal(s)), types.Typ[types.Int])
 	is := x.idxSort()
 	switch u := xt.Underlying().(type) {
 	case *types.Slice, *types.Array, *types.Basic:
